@@ -77,6 +77,7 @@ KeySet ==
     \* long keys that share their first 260 bytes ('^' stands for 260 bytes without a delimiter: a path segment longer than NAME_MAX): ^a  ^b  z
     [] KeySetName = "longshared" -> {<<94, 97>>, <<94, 98>>, <<122>>}
     [] KeySetName = "coll"  -> {<<100, 47, 120>>, <<100, 95, 120>>, <<100, 92, 120>>}            \* d/x, d_x, d\x
+    [] KeySetName = "pct"   -> {<<97, 47, 98>>, <<97, 37, 50, 70, 98>>}                         \* a/b and a%2Fb: a key that is the URL-escaped spelling of another
     [] KeySetName = "list"  -> {<<97>>, <<97, 47, 49>>, <<97, 45, 98>>, <<98>>} \* a, a/1, a-b, b
 
 CfgBase ==
